@@ -122,7 +122,7 @@ func c02Known(st influxql.Statement, printed, why string) string {
 
 func checkC02(c *Ctx) (string, bool, []string) {
 	r := c.R
-	rule := "every statement accepted in the C01 workload (all clause subsets of all 44 kinds, random payloads, 50% with names that need quoting: spaces, dots, quotes, backslashes, newlines, leading digits, non-ASCII, keywords in several casings) is printed and re-parsed; plus sweeps of fractional durations in every duration slot, floats and exponent forms in literals and fill(), negated operands under every operator, regexes with slashes, stand-alone expressions through ParseExpr, and multi-statement queries. Non-trivial = statement has an optional clause, quoted name or operator; distinct by text."
+	rule := "every statement accepted in the C01 workload (all clause subsets of all 44 kinds, random payloads, 50% with names that need quoting: spaces, dots, quotes, backslashes, newlines, leading digits, non-ASCII, keywords in several casings) is printed and re-parsed; plus sweeps of fractional durations in every duration slot, floats and exponent forms in literals and fill(), negated operands under every operator, regexes with slashes, stand-alone expressions through ParseExpr, multi-statement queries, and about 900 texts on the frontier of the accepted language (escape spellings, counts and durations at and beyond the value ranges, INF, blank-like and letter-like characters, sign-after-sign, adjacent literals): whichever of them the parser accepts must round-trip. Non-trivial = statement has an optional clause, quoted name or operator; distinct by text."
 	assume := []string{"password text is exempt (redacted on purpose) and is put back before re-parsing", "structural equality = astx canonical dump"}
 	if c.Replay != nil && replayStr(c, "sub") == "expr" {
 		text := replayStr(c, "input")
@@ -158,6 +158,42 @@ func checkC02(c *Ctx) (string, bool, []string) {
 		c02One(c, gc.Text, detFor(gc.Text, "subset"), local)
 		r.DistinctStr(gc.Text)
 		local["kind."+gen.Kinds[j.kind].Name]++
+		r.MergeCounts(local)
+	})
+	// the frontier of the accepted language: spellings the parser rejects
+	// today, or accepts at the very edge of a value range. Whatever is
+	// accepted - now or after a change that makes the parser more lenient -
+	// must print to text that reads back as the same statement.
+	var frontier []string
+	for _, e := range []string{`\r`, `\t`, `\0`, `\a`, `\x41`, `\u0041`, `\/`, `\\r`, `''`, `""`, `\'`, `\"`, "\t", "\u00a0", "\u2028", "\ufeff", "\u03bc", "\u212a"} {
+		frontier = append(frontier,
+			`SELECT "a`+e+`b" FROM m`, `SELECT v FROM "m`+e+`" WHERE s = 'x`+e+`y'`, `DROP MEASUREMENT "m`+e+`"`, `SELECT v FROM m WHERE "t`+e+`" = 'v`+e+`' GROUP BY "g`+e+`"`,
+			`CREATE USER "u`+e+`" WITH PASSWORD 'p`+e+`w'`, `SELECT v INTO "db`+e+`"."rp`+e+`"."t`+e+`" FROM m`, `SELECT "f`+e+`"("x`+e+`") AS "al`+e+`" FROM m`)
+	}
+	for _, n := range []string{"0", "2147483647", "2147483648", "4294967296", "9223372036854775807", "9223372036854775808", "18446744073709551615", "18446744073709551616", "99999999999999999999", "-1", "+5", "1.0", "1e3", "007"} {
+		for _, kw := range []string{"LIMIT", "OFFSET", "SLIMIT", "SOFFSET"} {
+			frontier = append(frontier, "SELECT v FROM m "+kw+" "+n, "SELECT v FROM (SELECT v FROM m "+kw+" "+n+")", "SHOW TAG KEYS "+kw+" "+n, "SHOW SERIES "+kw+" "+n, "SHOW MEASUREMENTS "+kw+" "+n, "SHOW FIELD KEYS "+kw+" "+n, "SHOW TAG VALUES WITH KEY = k "+kw+" "+n)
+		}
+		frontier = append(frontier, "CREATE RETENTION POLICY rp ON d DURATION 1h REPLICATION "+n, "ALTER RETENTION POLICY rp ON d REPLICATION "+n, "KILL QUERY "+n, "DROP SHARD "+n, "CREATE DATABASE d WITH REPLICATION "+n)
+	}
+	for _, d := range []string{"INF", "inf", "0s", "0", "00m", "-1s", "1", "9223372036854775807ns", "9223372036854775808ns", "1h1h", "1µ", "1\u03bcs", "+1h"} {
+		for _, cl := range []string{"DURATION", "SHARD DURATION", "FUTURE LIMIT", "PAST LIMIT"} {
+			frontier = append(frontier, "CREATE RETENTION POLICY rp ON d DURATION 2h REPLICATION 1 "+cl+" "+d, "ALTER RETENTION POLICY rp ON d "+cl+" "+d, "CREATE DATABASE d WITH "+cl+" "+d, "CREATE DATABASE d WITH "+cl+" "+d+" NAME rp")
+		}
+		frontier = append(frontier, "CREATE CONTINUOUS QUERY q ON d RESAMPLE EVERY "+d+" FOR "+d+" BEGIN SELECT mean(v) INTO t FROM m GROUP BY time("+d+") END", "SELECT mean(v) FROM m GROUP BY time("+d+", "+d+")", "SELECT v FROM m WHERE time > now() - "+d)
+	}
+	frontier = append(frontier,
+		"SELECT 'a' 'b' FROM m", "SELECT v FROM m WHERE s = 'a' 'b'", "SELECT - -v FROM m", "SELECT a / - -b FROM m", "SELECT + -v, - +v, -(-v) FROM m", "SELECT \u00e9 FROM m", "SELECT v FROM caf\u00e9", "SELECT temp_\u212a FROM m",
+		"SEL\u0130CT v FROM m", "SELECT v FR\u212aM m", "SELECT v FROM m W\u0130TH x", "SELECT v\u00a0FROM m", "SELECT v\vFROM m", "SELECT v\fFROM\u2003m", "SELECT v FROM db. rp.m", "SELECT v FROM db . rp . m", "SELECT a. b, c .d FROM m",
+		"SELECT v :: float FROM m", "SELECT v:: float FROM m", "SELECT *:: field FROM m", "SELECT v FROM m;;", ";;SELECT v FROM m", "SELECT v FROM m GROUP BY time(1m),", "SELECT v, FROM m", "SELECT v FROM m,", "SELECT (v) (w) FROM m",
+		"SELECT 1.e5, 1E5, .5e-3, 0x10, 1_000, 1. FROM m", "SELECT v FROM m WHERE a = TRUE AND b = tRuE", "SELECT v FROM m TZ('utc')", "SELECT v FROM m TZ('America/new_york')", "SELECT v FROM m fill(0x1)", "SELECT v FROM m fill(-0)", "SELECT v FROM m fill(1e2)", "SELECT v FROM m fill( none )")
+	mon.Parallel(len(frontier), c.Workers, func(i int) {
+		local := map[string]int64{}
+		c02One(c, frontier[i], detFor(frontier[i], "frontier"), local)
+		local["frontier.tried"]++
+		local["frontier.accepted"] += local["accepted"]
+		delete(local, "accepted")
+		delete(local, "not-accepted(skipped)")
 		r.MergeCounts(local)
 	})
 	nrand := c.N(40000, 1500000)
